@@ -196,6 +196,7 @@ def c05(tier):
     kb.kb2(P, C)
     kb.kb3(P, C)
     n = kb.kb6(P, C)
+    C.extra["index_sites"] = kb.kb5(P, C)
     kb.sc4(P, C)
     kb.sc123(P, C)      # the centre range (clamps, adjustment, search interval) is what keeps the coefficient walk in bounds
     C.extra["vla_declarators"] = n
